@@ -240,6 +240,14 @@ def expand_isar_calls(txt):
         txt = txt[:p] + "((%s) << (%s))" % (a, b) + txt[end + 1:]
 
 
+def _spellings(c):
+    """(tag, text): minimal, fully parenthesised, and - when it differs - the minimal text without blanks"""
+    out = [("M", c["min"]), ("F", c["full"])]
+    if c.get("tight") and c["tight"] != c["min"]:
+        out.append(("T", c["tight"]))
+    return out
+
+
 def expr_worker(cases, wid, extra):
     """cases: list of {min, full, value, names}"""
     import prophyc.calc as calc
@@ -410,7 +418,7 @@ def expr_worker(cases, wid, extra):
         text = pre
         for off, c in enumerate(chunk):
             i = base_i + off
-            text += "\n".join(decls(i, c, c["min"], "M") + decls(i, c, c["full"], "F")) + "\n"
+            text += "\n".join(sum((decls(i, c, txt, tag) for tag, txt in _spellings(c)), [])) + "\n"
         sub = tempfile.mkdtemp(prefix="p", dir=work)
         path = os.path.join(sub, "e.prophy")
         with open(path, "w") as f:
@@ -424,11 +432,11 @@ def expr_worker(cases, wid, extra):
             return "import", str(e)
         by = {n.name: n for n in nodes["e"]}
         if cpp_on[0]:
-            used = [(base_i + off, tag, txt, c) for off, c in enumerate(chunk) for tag, txt in (("M", c["min"]), ("F", c["full"]))]
+            used = [(base_i + off, tag, txt, c) for off, c in enumerate(chunk) for tag, txt in _spellings(c)]
             check_cpp(sub, used, "prophy", True)
         for off, c in enumerate(chunk):
             i, v = base_i + off, c["value"]
-            for tag, txt in (("M", c["min"]), ("F", c["full"])):
+            for tag, txt in _spellings(c):
                 node = by["%s%d" % (tag, i)]
                 if str(node.value) != str(v):
                     fail(c, "prophy const (%s)" % txt, "model constant value is %r, the expression denotes %d" % (node.value, v))
@@ -472,7 +480,7 @@ def expr_worker(cases, wid, extra):
         used = []
         for off, c in enumerate(chunk):
             i = base_i + off
-            for tag, txt in (("M", c["min"]), ("F", c["full"]), ("I", c.get("isar", ""))):
+            for tag, txt in _spellings(c) + [("I", c.get("isar", ""))]:
                 if txt and not _has_octal(txt):
                     # operator calls (tag I) are expanded in constants and enumerators only: no array extent
                     used.append((i, tag, txt, dict(c, _nostruct=True) if tag == "I" else c))
@@ -536,7 +544,7 @@ def expr_worker(cases, wid, extra):
                 if c["min"] != c["full"].strip("()"):
                     res["nontrivial"] += 1
                 # the model-time evaluator, directly
-                for txt in (c["min"], c["full"]):
+                for _, txt in _spellings(c):
                     if _has_octal(txt):
                         continue
                     try:
@@ -1371,6 +1379,15 @@ def fuzz_tokens(text, rnd, vocab):
     return "".join(toks)
 
 
+_cycle_pos = [0]
+
+
+def _cycle(options):
+    """every option in turn (the case list repeats this patch class often enough)"""
+    _cycle_pos[0] += 1
+    return options[_cycle_pos[0] % len(options)]
+
+
 def concretise(case, rnd, root):
     """A Pipeline case -> (argv, files to write, expected outputs or None)"""
     fe, fault, pos, pfault, ofault = case["fe"], case["fault"], case["pos"], case["pfault"], case["ofault"]
@@ -1538,6 +1555,13 @@ def concretise(case, rnd, root):
                  "wrong_param_count": "Picture type c\n", "member_not_found": "Picture type nosuch u8\n",
                  "non_integer_index": "Picture insert first extra u8\n", "absent_message": "NoSuchMessage type a u8\n",
                  "empty_patch": "\n\n", "non_utf8_patch": "Picture type c u8 \udcff\n",
+                 # valid rules on other node kinds and with every action (must simply work)
+                 "valid_rules": _cycle(["Shape rename circle ring\n", "Shape rename Form\nPoint rename Dot\n",
+                                            "Color rename Colour\n", "word_t rename half_t\n", "Shape struct\n",
+                                            "Picture rename pts points\nPicture rename pts_len count\n",
+                                            "Picture insert 1 extra u16\nPicture remove c\n",
+                                            "Picture type c u32\nPicture greedy pts\n" if False else "Picture type c u32\n",
+                                            "Point type x u64\nPicture static pts 2\n"]),
                  "bad_size_expression": rnd.choice(["Picture static pts 16>>-2\n", "Picture static pts 1/0\n",
                                                     "Picture static pts 1<<-1\n", "Picture static pts 4+\n"])}[pfault]
         files["fix.patch"] = patch
@@ -1640,7 +1664,7 @@ def c13(tier, replay):
     rep.add_tlc(res.stats)
     reps = 4 if tier == "quick" else 60
     fz = 6 if tier == "quick" else 400
-    allcases = [c for c in cases for _ in range(fz if c["fault"] == "token_fuzz" else
+    allcases = [c for c in cases for _ in range(16 if c["pfault"] == "valid_rules" else fz if c["fault"] == "token_fuzz" else
                                                 reps if c["fault"] in ("random_text", "illegal_char", "empty_file", "division_by_zero",
                                                                         "size_names_type", "non_utf8", "absurd_shift", "negative_shift_constant",
                                                                         "empty_member_name", "deep_typedef_chain") else 1)]
